@@ -137,6 +137,7 @@ Verdict judge_c03(Plan const& p, History const& h, RunInfoLite const& ri)
   }
   v.nontrivial = threads.size() >= 2 && ri.preemptions >= 1 && accepted >= 5;
   v.probes["accepted_statements"] = accepted;
+  backlog_probes(m, p, v);
   v.probes["threads_logging"] = threads.size();
   uint64_t grow = 0, blocked = 0;
   for (auto const& n : m.notifier)
